@@ -21,7 +21,9 @@ def actions(size, rng):
     acts.append(['reset_depths'])
     for a in range(size + 1):
         for b in range(size + 1):
-            acts.append(['merge %d %d %s %s %s %s' % (a, b, L1, L2, L2 if (a + b) % 2 else '-', vf.enc_str('m') if (a * b) % 2 else '-')])
+            e1 = L1 if (a + 2 * b) % 3 else '-'
+            e2 = L2 if (2 * a + b) % 3 else '-'
+            acts.append(['merge %d %d %s %s %s %s' % (a, b, e1, e2, L2 if (a + b) % 2 else '-', vf.enc_str('m') if (a * b) % 2 else '-')])
     return acts
 
 class Check(PropCheck):
@@ -104,11 +106,15 @@ class Check(PropCheck):
                     ops += ['rescale ' + vf.enc_len(rng.choice([2.0, 0.5, 0.25, 4.0, -1.0]))]
                 elif r < 0.95:
                     if rng.random() < 0.8:
-                        ops += ['pick sibpair %d' % big, 'merge $0 $1 %s %s %s -' % (vf.enc_len(gen.exact_len(rng)), vf.enc_len(gen.exact_len(rng)), vf.enc_len(gen.exact_len(rng)) if rng.random() < 0.5 else '-')]
+                        def ol():
+                            return vf.enc_len(gen.exact_len(rng)) if rng.random() < 0.6 else '-'
+                        ops += ['pick sibpair %d' % big, 'merge $0 $1 %s %s %s -' % (ol(), ol(), ol())]
                     else:
                         ops += ['pick live %d' % big, 'merge $0 $0 - - - -']
-                else:
+                elif r < 0.975:
                     ops += ['reset_depths']
+                else:
+                    ops += ['pick live %d' % big, 'set_name $0 %s' % vf.enc_str('r%d' % s)]
                 ops.append('dump')
             cases.append(Case('walk_%d' % w, ops))
         self.stats['random_walks'] = nwalk
